@@ -8,6 +8,11 @@ import Bng.Model.Nat44
     `subscriber_nat[ip]` AND every `nat_sessions` entry with `key.src_ip = ip`, every `nat_reverse` entry with
     `value.src_ip = ip` and every `eim_table` entry with `key.internal_ip = ip`;
   * `releaseOld`     — DeallocateNAT before the fix (only the `subscriber_nat` entry): used by the witness theorem.
+  * `deallocFail ip` — DeallocateNAT when the kernel refuses the Delete of `subscriber_nat[ip]`: since the fix of finding
+    C10-delete-failure-frees-block the call returns the error before touching anything, so the maps are unchanged (the
+    block stays the subscriber's in the manager too: Spec.C10 `failed_delete_keeps_block`);
+  * `purgeKeepBlock` — what it did before that fix: the sessions, reverse entries and EIM mappings were purged, the
+    manager counted the block free, and `subscriber_nat[ip]` stayed.  Used by the witness theorem.
 
   Attribution (C10 at kernel level): every session translates to a port of the CURRENT block of the session's
   private address; every EIM mapping likewise.
@@ -32,6 +37,12 @@ def release (m : Maps) (ip : UInt32) : Maps :=
     eim := m.eim.filter (fun kv => kv.1.ip != ip) }
 
 def releaseOld (m : Maps) (ip : UInt32) : Maps := { m with subNat := AMap.erase m.subNat ip }
+
+def purgeKeepBlock (m : Maps) (ip : UInt32) : Maps :=
+  { m with
+    sessions := m.sessions.filter (fun kv => kv.1.srcIp != ip),
+    reverse := m.reverse.filter (fun kv => kv.2.srcIp != ip),
+    eim := m.eim.filter (fun kv => kv.1.ip != ip) }
 
 /-- `(ip, port)` — port in network order as the session stores it — lies in block `b` -/
 def inBlock (b : SubNat) (ip : UInt32) (portNet : UInt16) : Prop :=
@@ -58,12 +69,14 @@ inductive Op where
   | dealloc (ip : UInt32)
   | egress (clk : UInt64) (f : Frame)
   | ingress (clk : UInt64) (f : Frame)
+  | deallocFail (ip : UInt32)
 
 def step (m : Maps) : Op → Maps
   | .alloc ip b => install m ip b
   | .dealloc ip => if (AMap.lookup m.subNat ip).isSome then release m ip else m
   | .egress clk f => match Nat44.egress m clk f with | .ok o => o.maps | .error _ => m
   | .ingress clk f => match Nat44.ingress m clk f with | .ok o => o.maps | .error _ => m
+  | .deallocFail _ => m
 
 def run (m : Maps) (ops : List Op) : Maps := ops.foldl step m
 
@@ -73,5 +86,16 @@ def stepOld (m : Maps) : Op → Maps
   | op => step m op
 
 def runOld (m : Maps) (ops : List Op) : Maps := ops.foldl stepOld m
+
+/-- the manager before the fix of the failing Delete -/
+def stepOldDel (m : Maps) : Op → Maps
+  | .deallocFail ip => if (AMap.lookup m.subNat ip).isSome then purgeKeepBlock m ip else m
+  | op => step m op
+
+def runOldDel (m : Maps) (ops : List Op) : Maps := ops.foldl stepOldDel m
+
+/-- two blocks that translate to overlapping ports of one public address -/
+def blocksOverlap (a b : SubNat) : Bool :=
+  a.publicIp == b.publicIp && decide (a.portStart.toNat ≤ b.portEnd.toNat) && decide (b.portStart.toNat ≤ a.portEnd.toNat)
 
 end Bng.NatKern
